@@ -696,7 +696,7 @@ def mutate_xml(rng, desc, root, msg):
 
 
 # ------------------------------------------------------------------ correspondence: XML
-def corr_xml(check, desc, b, prelude_for, tag, tier):
+def corr_xml(check, desc, b, prelude_for, tag, tier, forced=()):
     from lxml import etree
     rng = check.rng
     n_vals = 3 if tier == 'quick' else 8
@@ -708,9 +708,13 @@ def corr_xml(check, desc, b, prelude_for, tag, tier):
         app_for = {poly: get_app(desc, b, proto, poly) for poly in (True, False)}
         soft_app = get_app(desc, b, proto, True, soft=True)
         for mi, m in enumerate(desc['methods']):
-            for _ in range(n_vals):
-                v = gen_value(rng, desc, m['ty'], depth=rng.randint(1, 3))
-                if rng.random() < 0.1:
+            todo = [fv for fmi, fv in forced if fmi == mi] + [None] * n_vals
+            for v in todo:
+                if v is None:
+                    v = gen_value(rng, desc, m['ty'], depth=rng.randint(1, 3))
+                    if rng.random() < 0.1:
+                        v = ('none',)
+                if False:
                     v = ('none',)
                 for poly in (True, False):
                     app = app_for[poly]
@@ -871,7 +875,7 @@ def mutate_doc(rng, desc, doc):
     return None
 
 
-def corr_hier(check, desc, b, prelude_for, tag, tier):
+def corr_hier(check, desc, b, prelude_for, tag, tier, forced=()):
     rng = check.rng
     n_vals = 3 if tier == 'quick' else 8
     protos = [rng.choice(DICT_PROTOS)] if tier == 'quick' else list(DICT_PROTOS)
@@ -879,8 +883,10 @@ def corr_hier(check, desc, b, prelude_for, tag, tier):
         enc_cases, dec_cases = [], []
         app_for = {poly: get_app(desc, b, proto, poly) for poly in (True, False)}
         for mi, m in enumerate(desc['methods']):
-            for _ in range(n_vals):
-                v = gen_value(rng, desc, m['ty'], depth=rng.randint(1, 3))
+            todo = [fv for fmi, fv in forced if fmi == mi] + [None] * n_vals
+            for v in todo:
+                if v is None:
+                    v = gen_value(rng, desc, m['ty'], depth=rng.randint(1, 3))
                 for poly in (True, False):
                     app = app_for[poly]
                     full = app._c16_classes
@@ -1397,6 +1403,25 @@ def corpus():
     return out
 
 
+def cross_namespace_program():
+    """B(a) in urn:a <- F(f) in urn:c <- G(xs: Array(B), k: B) back in urn:a, echo(B) and echo(Array(B)).  The interface
+    registers B only (F is placed elsewhere, G hangs below F), resolve_namespace reaches F (a direct subclass) but
+    never G: G's Array class keeps no namespace.  Instances of F and G are outside the property's quantifier (their
+    markers cannot be looked up); the correspondences run them all the same (forced values), the oracle runs B."""
+    P = lambda p: ('prim', p)
+    desc = _prog('urn:a', [{'ns': 'urn:a', 'name': 'B', 'parent': None, 'fields': [_f('a', P('int'))]},
+                           {'ns': 'urn:c', 'name': 'F', 'parent': 0, 'fields': [_f('f', P('int'))], 'far': True},
+                           {'ns': 'urn:a', 'name': 'G', 'parent': 1,
+                            'fields': [_f('xs', ('arr', ('ref', 0))), _f('k', ('ref', 0)), _f('ps', ('arr', P('text')))]}],
+                 [(('ref', 0), 0, True, True), (('arr', ('ref', 0)), 0, True, False)])
+    bv = ('obj', 0, [('int', 1)])
+    fv = ('obj', 1, [('int', 2), ('int', 3)])
+    gv = ('obj', 2, [('int', 4), ('int', 5), ('list', [bv, fv, ('obj', 2, [('none',), ('none',), ('list', []), ('none',), ('none',)])]),
+                     fv, ('list', [('text', 'p'), ('text', '')])])
+    vals = [(0, bv), (1, ('list', [bv, bv]))]
+    forced = [(0, gv), (0, fv), (1, ('list', [gv, bv, fv]))]
+    return desc, vals, forced
+
 # ------------------------------------------------------------------ growing hierarchies (oracle only)
 def extend_program(desc, b, new):
     """define further subclasses AFTER the program has been used; plain primitive members, so that no
@@ -1591,7 +1616,7 @@ def prelude_factory(desc):
     return f
 
 
-def run_program(check, desc, tag, tier, with_codecs=True, fixed=None):
+def run_program(check, desc, tag, tier, with_codecs=True, fixed=None, forced=()):
     b = build(desc)
     app = get_app(desc, b, 'XmlDocument', True)
     pf = prelude_factory(desc)
@@ -1599,8 +1624,8 @@ def run_program(check, desc, tag, tier, with_codecs=True, fixed=None):
     corr_flat(check, desc, b, app, prelude, tag)
     corr_registry(check, desc, b, app, prelude, tag)
     if with_codecs:
-        corr_xml(check, desc, b, pf, tag, tier)
-        corr_hier(check, desc, b, pf, tag, tier)
+        corr_xml(check, desc, b, pf, tag, tier, forced)
+        corr_hier(check, desc, b, pf, tag, tier, forced)
         ran = oracle_program(check, desc, b, tier, fixed)
         corr_hypotheses(check, desc, pf(app), tag, ran)
     return b
@@ -1661,6 +1686,8 @@ def run(check):
     check.prove('Props.C16', THEOREMS)
     for name, desc, vals in corpus():
         run_program(check, desc, 'corpus %s' % name, tier, fixed=vals)
+    desc, vals, forced = cross_namespace_program()
+    run_program(check, desc, 'corpus cross-namespace-chain', tier, fixed=vals, forced=forced)
     n_prog = 6 if tier == 'quick' else 40
     for pi in range(n_prog):
         desc = gen_tree(rng)
